@@ -857,7 +857,7 @@ func runC13(rc *runCtx) *RunResult {
 				return res
 			}
 			rc.inc("reference_checks", 1)
-			if (q.Kind == QRelContains || q.Kind == QRelIntersects) && len(refAns) == 1 && refAns[0] == 1 && q.Obj != q.Obj2 {
+			if (q.Kind == QRelContains || q.Kind == QRelIntersects) && len(refAns) >= 1 && refAns[0] == 1 && q.Obj != q.Obj2 {
 				rc.inc("probe_relation_true_between_distinct_objects", 1)
 			}
 			comparable, equal, subj, ref := compare(q, v, refAns, refCells, refCellsOK)
